@@ -121,6 +121,58 @@ def run(ctx: Ctx, tier: str) -> Result:
             res.fail(Finding("C20.ISO", fi.qname, call, fi.loc(call),
                              "%s is not isolated: %s" % (desc, why)))
 
+    # every plugin of the configured collection is called: the loops over plugins run over the whole collection, without
+    # break, and what a plugin contributes is taken exactly when it contributed something
+    PLUGIN_COLLS = ("snapshot_decorators", "metric_processors", "span_processors", "resource_providers", "plugins")
+    nloops = 0
+    for fi, call, desc in sites:
+        for lp_ in [l for l in paths.enclosing_loops(ctx.prog, call, fi) if isinstance(l, ast.For)][:1]:
+            src = ctx.expand.expand(lp_.iter, fi)
+            raw = norm(lp_.iter)
+            if not (any(("." + c_) in raw for c_ in PLUGIN_COLLS) or any("__plugin_generator(" in x or x.endswith("._plugins") for x in src)):
+                continue
+            nloops += 1
+            cut = [n for n in ast.walk(lp_.iter) if isinstance(n, ast.Subscript) or (isinstance(n, ast.Call) and norm(n.func) in ("next", "itertools.islice", "islice"))]
+            brk = [n for n in ast.walk(lp_) if isinstance(n, ast.Break)] + [n for n in ast.walk(lp_) if isinstance(n, ast.Return)]
+            if cut or brk:
+                res.fail(Finding("C20.ISO", fi.qname, (cut or brk)[0], fi.loc((cut or brk)[0]), "the loop over the plugins (%s) does not visit every plugin (`%s`): the others never run" % (
+                    desc, norm((cut or brk)[0])[:50])))
+            else:
+                res.ok("C20.ISO", {"every plugin visited": fi.loc(lp_), "collection": src[0][-40:]})
+            # contribution taken iff provided
+            st = paths.stmt_of(ctx.prog, call)
+            if desc.startswith("callback") and isinstance(st, ast.Assign) and isinstance(st.targets[0], ast.Name) and st.value is call:
+                got = st.targets[0].id
+                uses = [n for n in ast.walk(lp_) if isinstance(n, ast.Call) and any(isinstance(a, ast.Name) and a.id == got for a in n.args)]
+                if not uses:
+                    res.fail(Finding("C20.ISO", fi.qname, st, fi.loc(st), "what the plugin contributed (`%s`) is never used: healthy plugins lose their contribution" % got))
+                for u in uses:
+                    cs_ = [(norm(c_), pol) for c_, pol in paths.conditions(ctx.prog, u, fi) if paths.within(ctx.prog, c_, lp_)]
+                    okc = cs_ in ([(got, True)], [("%s is not None" % got, True)], [("%s is None" % got, False)], [("not %s" % got, False)])
+                    if okc:
+                        res.ok("C20.ISO", {"contribution used when provided": norm(u)[:60]})
+                    else:
+                        res.fail(Finding("C20.ISO", fi.qname, u, fi.loc(u), "what the plugin contributed (`%s`) is used when `%s`, not exactly when it contributed something: healthy "
+                                         "plugins lose their contribution" % (got, " and ".join(("" if pol else "not ") + c_ for c_, pol in cs_) or "always")))
+    res.floor("loops over plugin collections", nloops, 4)
+    # the snapshot decorations collected from the plugins reach the snapshot
+    dec = ctx.prog.func("deep.processor.context.snapshot_action.DeferredSnapshotActionResult._decorate_snapshot") \
+        if "deep.processor.context.snapshot_action.DeferredSnapshotActionResult._decorate_snapshot" in ctx.prog.functions else None
+    if dec is not None:
+        acc = [n for n in ctx.types.nodes_in(dec, ast.Assign) if isinstance(n.value, ast.Call) and any(k.name == "BoundedAttributes" for k in ctx.types.resolve_call(n.value, dec).ctor)]
+        okd = False
+        if len(acc) == 1 and isinstance(acc[0].targets[0], ast.Name):
+            an = acc[0].targets[0].id
+            kw = {k.arg: norm(k.value) for k in acc[0].value.keywords}
+            fin = [c for c in ctx.types.calls_in(dec) if isinstance(c.func, ast.Attribute) and c.func.attr == "merge_in" and c.args and norm(c.args[0]) == an
+                   and not paths.conditions(ctx.prog, c, dec) and not paths.enclosing_loops(ctx.prog, c, dec)]
+            okd = kw.get("immutable") == "False" and len(fin) == 1 and norm(fin[0].func.value).endswith("snapshot.attributes")
+        if okd:
+            res.ok("C20.ISO", {"decorations collected in a mutable set and merged into the snapshot": dec.loc(acc[0])})
+        else:
+            res.fail(Finding("C20.ISO", dec.qname, acc[0] if acc else "<attributes>", dec.loc(), "the decorations of the healthy plugins do not reach the snapshot (the collecting "
+                             "attribute set is immutable, or it is never merged into the snapshot's attributes)"))
+
     # ---- loader shape
     lp = ctx.prog.func("deep.api.plugin.load_plugins")
     appends = [c for c in ctx.types.calls_in(lp) if isinstance(c.func, ast.Attribute) and c.func.attr == "append"]
